@@ -260,7 +260,7 @@ func (ch c02) Run(c *core.Ctx) {
 		strict(conn, "handler programs "+trim(shapes, 200), cs)
 	}
 	// (b) hostile client input
-	canon := c04canonical(core.NewRng(c.Seed, "C04canon", 0, 0), 14)
+	canon := c04canonical(core.NewRng(c.Seed, "C04canon", 0, 0), 16)
 	for i := 0; i < nhost; i++ {
 		if !c.Begin(1000000+i) || c.NViol() >= 10 {
 			continue
